@@ -26,7 +26,7 @@ type c15Pin struct {
 }
 
 type c15Stats struct {
-	mustPinned, mustGone, dontCare, purgeChecks, purgeObligations, terminated int64
+	mustPinned, mustGone, dontCare, purgeChecks, purgeObligations, terminated, massExpiries int64
 	maxTable                                                                  int64
 }
 
@@ -46,6 +46,24 @@ func c15History(seed int64, steps int, stats *c15Stats, fail func(string, map[st
 		}
 	}
 	slack := 2 * time.Millisecond
+	if seed%4 == 0 {
+		// many dialogs set up close together and then left alone: all of them are expired at one
+		// and the same sweep (the steps below find every survivor at their first pin)
+		n := 65 + r.Intn(136)
+		if n > ndialogs {
+			ndialogs = n
+		}
+		for k := 0; k < n; k++ {
+			d := fmt.Sprintf("dlg%d", k)
+			b := backends[k%len(backends)]
+			t0 := time.Now()
+			dbb.AddBackend(d, b, 0)
+			model[d] = &c15Pin{backend: b, start: t0, done: time.Now(), lifetime: timeout, expires: 0}
+		}
+		note("%d dialogs pinned in one go, then idle for two timeout periods", n)
+		atomic.AddInt64(&stats.massExpiries, 1)
+		time.Sleep(2*timeout + 2*slack + time.Millisecond)
+	}
 	for s := 0; s < steps; s++ {
 		d := fmt.Sprintf("dlg%d", r.Intn(ndialogs))
 		switch x := r.Intn(100); {
@@ -188,6 +206,7 @@ func TestVerifC15(t *testing.T) {
 	run.Observe("lookups_dont_care_window", stats.dontCare)
 	run.Observe("adds_checked_for_purge", stats.purgeChecks)
 	run.Observe("purge_obligations_checked", stats.purgeObligations)
+	run.Observe("histories_with_65_to_200_dialogs_expiring_together", stats.massExpiries)
 	run.Observe("terminations", stats.terminated)
 	run.Observe("max_table_size_seen", stats.maxTable)
 	run.Sample(map[string]any{"history": "seed " + fmt.Sprint(run.Seed*100000) + ": " + fmt.Sprint(steps) + " random steps of pin(exp)/lookup/terminate/sleep over <=200 dialogs, timeout 20-80 ms"})
